@@ -833,7 +833,7 @@ fn patch_rectangle_contract<const CW: usize, const CH: usize, const RW: usize, c
     let (cl, ct) = (canvas_region.left as i64, canvas_region.top as i64);
     let under_target = g.target.0 <= cl + px as i64 && cl + (px as i64) < g.target.0 + g.size.0 && g.target.1 <= ct + py as i64 && ct + (py as i64) < g.target.1 + g.size.1;
     kani::cover!(painted && g.target.0 < cl && g.target.1 < ct && src == Some((RW - 1, RH - 1))); // clipped at the left / top edge of the canvas
-    kani::cover!(painted && g.target.0 + g.size.0 > cl + CW as i64 && g.target.1 + g.size.1 > ct + CH as i64 && g.src.0 > ref_region.left as i64); // clipped right / bottom
+    kani::cover!(painted && g.target.0 + g.size.0 > cl + CW as i64 && g.target.1 + g.size.1 > ct + CH as i64); // clipped right / bottom
     kani::cover!(!painted && (g.target.0 + g.size.0 <= cl || g.target.1 >= ct + CH as i64)); // target wholly left of / below the canvas
     kani::cover!(!painted && g.target.0 + g.size.0 == cl + px as i64 && g.target.1 <= ct + py as i64); // kept sample right of a visible target
     // (AnywhereOriginReference only) a sample under the target whose source lies beyond the reference is kept
@@ -856,7 +856,7 @@ macro_rules! patch_rectangle_harness {
     };
 }
 // quick: canvas 3x2, reference 2x2, coordinates in a +-12 window; wide: canvas 4x3, reference 4x3, every coordinate up to the
-// frame size limit
+// frame size limit (only patch_replace_rectangle_wide is registered: the other wide instantiations were not measured)
 patch_rectangle_harness!(patch_replace_rectangle, 4, 3, 2, 2, 2, SourceRect::InsideReference, 1, false);
 patch_rectangle_harness!(patch_add_rectangle, 4, 3, 2, 2, 2, SourceRect::InsideReference, 2, false);
 patch_rectangle_harness!(patch_replace_source_clipped, 4, 3, 2, 2, 2, SourceRect::AnywhereOriginReference, 1, false);
@@ -866,6 +866,9 @@ patch_rectangle_harness!(patch_mul_rectangle_wide, 5, 4, 3, 4, 3, SourceRect::In
 patch_rectangle_harness!(patch_add_source_clipped_wide, 5, 4, 3, 4, 3, SourceRect::AnywhereOriginReference, 2, true);
 
 // ---- several channels: which blending entry, which rectangle and which alpha planes each channel gets ----------------
+// NOT REGISTERED (status at hand-over): patch_channel_mapping_gray and patch_two_targets did not close within 900 s;
+// patch_channel_mapping_rgb / patch_alpha_planes_* were never run to completion. They compile and state the intended contract;
+// the cost is CBMC's loss of constants in patch()'s Chain iterator (every spurious channel iteration re-runs the kernel model).
 /// (raw patch blend mode 0..7, clamp, alpha_channel) of one blending entry
 type Entry = (u8, bool, u32);
 
@@ -1101,6 +1104,12 @@ fn patch_two_targets() {
 }
 
 // ---- totality: everything Patches::parse lets through ---------------------------------------------------------------
+// NOT REGISTERED: both harnesses FAIL on the unchanged tree (reported as findings, see the unit report):
+//   patch_total_coordinates: `attempt to subtract with overflow` at blend.rs:445/446 (target_patch_region.left - target.x with an
+//     empty intersection, e.g. x = i32::MIN) and `attempt to add with overflow` at blend.rs:449/450 (x0 as i32 + left, e.g.
+//     x0 = i32::MAX, x = -1, width 2) -- panics in overflow-checked builds; the tagged asserts hold with wrapping arithmetic.
+//   patch_total_alpha_mode_without_extra_channels: index out of bounds at blend.rs:492 (`ec_info[alpha_idx]` on an image
+//     without extra channels, patch blend mode 4..7) -- a panic in every build.
 /// x0, y0, width, height ANY u32 (width, height >= 1), x, y ANY i32 (patch.rs:128-168 reads them as unchecked varints);
 /// canvas rectangle anywhere within the frame size limit, reference at the frame origin. kReplace, one channel.
 #[kani::proof]
